@@ -640,13 +640,18 @@ impl ShardSplitter {
 
         info!("Deleting {} chunks from old shard", chunks.len());
 
+        let mut first_error: Option<crate::Error> = None;
         for chunk in chunks.iter() {
             let path: object_store::path::Path = chunk.chunk_path.as_str().into();
 
             match self.object_store.delete(&path).await {
-                Ok(_) => {}
+                Ok(_) | Err(object_store::Error::NotFound { .. }) => {}
                 Err(e) => {
                     warn!("Failed to delete chunk {}: {}", chunk.chunk_path, e);
+                    // Keep the catalog entry: it is what lets a resumed clean-up find
+                    // this chunk again.
+                    first_error.get_or_insert(e.into());
+                    continue;
                 }
             }
 
@@ -655,7 +660,14 @@ impl ShardSplitter {
                     "Failed to delete chunk metadata {}: {}",
                     chunk.chunk_path, e
                 );
+                first_error.get_or_insert(e);
             }
+        }
+
+        // A failed delete leaves the split unfinished: the caller keeps the progress file
+        // and a resume repeats the clean-up.
+        if let Some(e) = first_error {
+            return Err(e);
         }
 
         info!("Cleanup complete for shard {}", old_shard);
